@@ -186,10 +186,10 @@ impl Check for C05 {
         ]
     }
     fn cases(&self, tier: Tier) -> u64 {
-        tier.pick(2_000, 80_000)
+        tier.pick(4_000, 80_000)
     }
     fn min_nontrivial(&self, tier: Tier) -> u64 {
-        tier.pick(1_000, 30_000)
+        tier.pick(2_000, 30_000)
     }
     fn shard_budget(&self, tier: Tier) -> std::time::Duration {
         tier.pick(std::time::Duration::from_secs(150), std::time::Duration::from_secs(1500))
